@@ -40,7 +40,8 @@ from aiokafka.structs import TopicPartition  # noqa: E402
 
 # start-position events (the ones an injected user call is placed after)
 SP_EVENTS = ("c_assigned", "c_committed_req", "c_lookup_sent", "c_lookup_err", "c_lookup_ok", "c_committed_resp",
-             "c_lo_sent", "c_lo_resp", "c_lo_err", "c_await_reset", "c_reset_to", "c_set_error")
+             "c_lo_sent", "c_lo_resp", "c_lo_err", "c_await_reset", "c_reset_to", "c_set_error",
+             "c_fetch_sent_oor")     # a Fetch sent at an offset outside the log: its reply will be OFFSET_OUT_OF_RANGE
 HOOK = {"fn": None}
 
 
@@ -330,6 +331,12 @@ def run_scenario(sc):
                 net.ev("inject_scheduled", p=p, after=kind, index=count[p])
                 loop.call_soon(do_inject)
         HOOK["fn"] = hook
+
+        def fetch_sent(p, o):
+            lg = net.log("t", p)
+            if o < lg.log_start or o > lg.next_offset:
+                hook("c_fetch_sent_oor", {"p": p})
+        c03_sim.FETCH_SENT_HOOK["fn"] = fetch_sent
         net.fault_counter["on"] = True
         if sc.get("mode") == "group":
             consumer.subscribe(["t"])
